@@ -267,6 +267,11 @@ pub fn resolve_type<'n>(node_type: &'n str, doc: &RustDocument) -> (&'n str, Opt
 pub fn as_rust_type(node_type: &str, doc: &RustDocument) -> RustFieldType {
     let (node_type, namespace) = split_type(node_type);
 
+    // a prefix bound to a namespace of the document denotes a user type, whatever its local name is
+    if namespace.is_some_and(|ns| doc.find_namespace_by_abbreviation(ns).is_some()) {
+        return user_type(node_type, namespace, doc);
+    }
+
     match node_type {
         "byte" => RustFieldType::I8,
         "string" | "normalizedString" | "base64Binary" | "hexBinary" | "anyURI" | "date" | "dateTime" | "time"
@@ -283,14 +288,18 @@ pub fn as_rust_type(node_type: &str, doc: &RustDocument) -> RustFieldType {
         "unsignedByte" => RustFieldType::U8,
         "short" => RustFieldType::I16,
         "boolean" => RustFieldType::Bool,
-        v => RustFieldType::Other(OtherRustType {
-            name: to_pascal_case(v),
-            module: namespace.and_then(|ns| {
-                doc.find_module_name_from_namespace_reference(ns)
-                    .map(ToString::to_string)
-            }),
-        }),
+        v => user_type(v, namespace, doc),
     }
+}
+
+fn user_type(name: &str, namespace: Option<&str>, doc: &RustDocument) -> RustFieldType {
+    RustFieldType::Other(OtherRustType {
+        name: to_pascal_case(name),
+        module: namespace.and_then(|ns| {
+            doc.find_module_name_from_namespace_reference(ns)
+                .map(ToString::to_string)
+        }),
+    })
 }
 
 pub fn as_field_name(xml_name: &str) -> String {
